@@ -16,7 +16,8 @@ uploadReaderToChunks/read-error-treated-as-eof: before it the loop just ended, a
 Bytes, offsets and sizes are `Nat`.  A chunk's `gen` is the number of the request that uploaded it; it
 stands for the chunk's mtime (`time.Now()` at upload: requests are sequential, so later request ⇒ later
 mtime; chunks of one request never overlap, so their relative order is irrelevant).  Uploads to the volume
-server do not fail in the model (the stand-in never refuses), so `uploadErr` is only ever set from `readErr`.
+server do not fail in `handle` (the stand-in does not refuse unless told to), so there `uploadErr` is only ever set
+from `readErr`; `handleUploadFail` is the request during which every attempt to store one chunk is refused.
 -/
 import SwV.Model.C17
 namespace SwV.Model.C25
@@ -105,6 +106,38 @@ def handle (existing : Option Entry) (m : Method) (isAppend : Bool) (cs limit : 
       match saveMetaData existing isAppend u with
       | .ok e => (201, some e, [])
       | .refused => (500, existing, [])
+
+/-! ### a chunk upload that fails for good
+
+`dataToChunk` tries three times (assign a file id at the master, upload to the volume server; 251/502/753 ms
+apart) and then returns its error.  The goroutine of that chunk sets the function's `uploadErr`
+(`if toChunkErr != nil { uploadErr = toChunkErr }` — only ever SET: the chunks that finish later do not touch it),
+appends nothing to `fileChunks`; the reading loop does not look at `uploadErr`, it reads the body to its end and
+uploads every other chunk.  After `wg.Wait()`: `if uploadErr != nil { fs.filer.DeleteChunks(fileChunks); return nil, …, uploadErr, nil }`
+— ALL chunks that were uploaded (every chunk of the request except the failed one) go to deletion, doPut/doPostAutoChunk
+return the error before saveMetaData, autoChunk answers 500 (the error is not a "read input:" one). -/
+
+/-- attempts `dataToChunk` makes for one chunk before it gives up (`for i := 0; i < 3; i++`) -/
+def uploadAttempts : Nat := 3
+
+/-- how many assign requests of this request the master refuses when it is told to refuse every attempt of the
+    chunk read `k`-th (0-based): all three attempts if the request uploads such a chunk, else none -/
+def refusedAttempts (m : Method) (isAppend : Bool) (cs limit : Nat) (etc : Bool) (gen : Nat) (body : List Nat) (k : Nat) : Nat :=
+  match m with
+  | .postRaw => 0
+  | _ => if k < (uploadReaderToChunks cs limit isAppend etc gen body false).chunks.length then uploadAttempts else 0
+
+/-- one write request with an error-free body during which every attempt to store the chunk read `k`-th fails
+    (status, entry stored afterwards, chunks of this request handed to Filer.DeleteChunks).  When the request
+    uploads no such chunk (short body, inline branch, raw POST) nothing fails: `handle`. -/
+def handleUploadFail (existing : Option Entry) (m : Method) (isAppend : Bool) (cs limit : Nat) (etc : Bool) (gen : Nat)
+    (body : List Nat) (k : Nat) : Nat × Option Entry × List MChunk :=
+  match m with
+  | .postRaw => (500, existing, [])
+  | _ =>
+    let u := uploadReaderToChunks cs limit isAppend etc gen body false
+    if k < u.chunks.length then (500, existing, u.chunks.eraseIdx k)
+    else handle existing m isAppend cs limit etc gen body false
 
 /-- chunks of `body` of size `cs` each (the last one shorter), as a gRPC client stores them -/
 def splitChunks (cs gen : Nat) : Nat → List Nat → Nat → List MChunk
